@@ -123,6 +123,10 @@ def encode(c, enc):
     op = c["op"]
     if PIO.is_pi(c):
         return PIO.encode(c, enc)
+    if op == "znormwin":
+        # model of znormWindowFilter with its inner znormalizeCenterVal (PIMeasures.lean, DESIGN 11.8): WHETHER and WHAT it
+        # raises and the length of the result; the values need `statistics` and stay with the oracle
+        return f"znormwin_shape {enc_list(enc, c['xs'])} {c['w']} {enc.b(c['pad'])} {enc.b(c['fz'])}"
     if c.get("nomodel"):
         return "skip"
     if op == "stepfilt":
@@ -211,6 +215,8 @@ def render(c, r, enc):
     op = c["op"]
     if PIO.is_pi(c):
         return PIO.render(c, r, enc)
+    if op == "znormwin":
+        return "err " + r[1] if r[0] == "err" else f"ok {len(r[1])}"
     if c.get("nomodel"):
         return "ok skip"
     if r[0] == "err":
@@ -672,7 +678,8 @@ def gen_stats(rnd, tier):
         xs = [rnd.choice([0.0, 0, round(rnd.uniform(50, 200), 1)]) if rnd.random() < 0.25 else round(rnd.uniform(50, 200), 1) for _ in range(n)]
         if not fz and rnd.random() < 0.5:
             xs = series(rnd, rnd.choice(["dec", "int", "ties"]), n)
-        yield {"op": "znormwin", "xs": xs, "w": rnd.randint(2, 8), "pad": rnd.random() < 0.6, "fz": fz, "nomodel": True}
+        yield {"op": "znormwin", "xs": xs, "w": rnd.randint(2, 8) if rnd.random() < 0.9 else rnd.randint(0, 1), "pad": rnd.random() < 0.6, "fz": fz,
+               "nomodel": True}
     for _ in range(300 * k):
         kind = rnd.choice(["ties", "int", "dec", "grid"])
         yield {"op": "rms", "xs": series(rnd, kind, rnd.randint(0, 15)), "nomodel": True}
